@@ -87,10 +87,16 @@ func (g *GettyRemoting) sendAsync(session getty.Session, msg message.RpcMessage,
 		return nil, fmt.Errorf("session is closed")
 	}
 	resp := message.NewMessageFuture(msg)
-	g.futures.Store(msg.ID, resp)
+	if callback != nil {
+		// only a message somebody waits for gets a future: responses and heartbeats carry an id
+		// chosen by the peer, which may equal the id of one of our own pending requests
+		g.futures.Store(msg.ID, resp)
+	}
 	_, _, err = session.WritePkg(msg, time.Duration(0))
-	if err != nil {
+	if err != nil && callback != nil {
 		g.futures.Delete(msg.ID)
+	}
+	if err != nil {
 		log.Errorf("send message: %#v, session: %s", msg, session.Stat())
 		return nil, err
 	}
